@@ -31,8 +31,17 @@
            = sum over the elements i of y of  d/dt y_i(p + t dp) at t = 0
        for every tape without stop_gradient whose operands lie in the smooth domains
        (real_smooth), y(p) being the pure forward evaluation of the tape at parameters p.
-   Not covered: MaxPooling2D and the Divide / Pow ...Scalar variants; the dense
-   SoftmaxCrossEntropy only for x and t of one common shape. *)
+   Added later (same three layers): MaxPooling2D (windows of pool2d_red, lowest() for an all-padding
+   window, first-maximum routing; derivative when every non-empty window attains its maximum
+   once), DivideScalarR/L and PowScalarR/L (batch-1 or batch-B scalar operand), the dense
+   SoftmaxCrossEntropy with x and t of batch B vs 1 in either direction (RSCEb; derivative when the
+   target sums to 1 along the axis in every batched slice) and SparseSoftmaxCrossEntropy with x of
+   batch 1 under B index lists (RSparseSCEb), Tensor/AdjSoftmaxB.v.
+   C01_real_bw_table_is_family: the 72 operator classes with a BACKWARD body in the regenerated
+   table are exactly the names modelled by the constructors of real_family (sound + covered), so
+   a new / removed / renamed BACKWARD body fails this file.
+   Not covered: stop_gradient is in the family for adjointness but excluded from (2)/(3) (its
+   backward is deliberately not the derivative). *)
 From Coq Require Import List NArith ZArith Bool Arith Reals.
 From Coquelicot Require Import Coquelicot.
 From PV Require Import Graph.OpFamily Graph.Tape Graph.Lazy Graph.Backward Graph.TapeLemmas Graph.LazyProofs
@@ -217,5 +226,39 @@ Example C01_real_guards_nonvacuous :
   d_ok (describeR (RSparseSCE (mkT [3%nat] 2) (mkT [1%nat] 2) [2%nat; 0%nat] 0)) = true /\
   d_ok (describeR (RSparseSCE (mkT [3%nat] 2) (mkT [1%nat] 2) [1%nat] 0)) = true /\
   d_ok (describeR (RBin BDivide (mkT [3%nat] 2) (mkT [3%nat] 1))) = true /\
-  d_ok (describeR (RBin BPow (mkT [3%nat] 1) (mkT [3%nat] 4))) = true.
+  d_ok (describeR (RBin BPow (mkT [3%nat] 1) (mkT [3%nat] 4))) = true /\
+  d_ok (describeR (RMaxPool (mkT [3%nat; 3%nat] 2) (mkT [2%nat; 2%nat] 2) 2 2 1 1 2 2)) = true /\
+  d_ok (describeR (RDivScalarR (mkT [3%nat] 2) (mkT [] 1))) = true /\
+  d_ok (describeR (RDivScalarL (mkT [3%nat] 1) (mkT [] 2))) = true /\
+  d_ok (describeR (RPowScalarR (mkT [3%nat] 2) (mkT [] 2))) = true /\
+  d_ok (describeR (RPowScalarL (mkT [2%nat; 2%nat] 1) (mkT [] 1))) = true /\
+  d_ok (describeR (RSCEb (mkT [3%nat] 2) (mkT [3%nat] 1) (mkT [1%nat] 2) (mkT [1%nat] 2) 0)) = true /\
+  d_ok (describeR (RSCEb (mkT [3%nat] 1) (mkT [3%nat] 2) (mkT [1%nat] 1) (mkT [1%nat] 2) 0)) = true /\
+  d_ok (describeR (RSparseSCEb (mkT [3%nat] 1) (mkT [1%nat] 1) (mkT [1%nat] 2) [2%nat; 0%nat] 0)) = true.
 Proof. exact rx_guards. Qed.
+
+(* a tape through the operators added last: p {2,2} and a scalar c are parameters,
+     m = max_pool2d(p) (2x2 window) reshaped to a scalar, x = p / m + c / p + p ^ c + c ^ p,
+     y = softmax_cross_entropy(x, t) + softmax_cross_entropy(p, {0, 1}),  t of batch 2 against x of batch 1;
+   every hypothesis of C01_real_backward_computes_derivative holds (the max is attained once, the
+   divisors are non-zero, the pow bases positive, t sums to 1 per slice), backward() from y runs
+   through all 15 operators and the theorem's conclusion is obtained for it *)
+Example C01_real_nonvacuous_added_operators :
+  (forall p, length (e_pval ry_env p) = length (ry_dp p)) /\ real_smooth ry_ops0 ry_env /\
+  wf_ops ry_ops0 /\ shape_ok real_family ry_ops0 /\
+  consistent real_family real_jvp (val_at (real_tangents ry_ops0 ry_env ry_dp)) ry_dp ry_ops0 ry_env /\
+  rsized real_family tsize (val_at (real_tangents ry_ops0 ry_env ry_dp)) ry_ops0 ry_env /\
+  gclean ry_ops0 /\ psz real_family tsize ry_ops0 ry_env /\
+  ry_gen = ry_ops0 /\
+  (exists ops' e' bl',
+    sweep real_family rVO 14 ry_seeded ry_env [] = Some (ops', e', bl') /\
+    bl' = [14; 13; 12; 11; 10; 9; 8; 7; 6; 5; 4; 3; 2; 1; 0]%nat) /\
+  exists ops' e' bl',
+    sweep real_family rVO 14 ry_seeded ry_env [] = Some (ops', e', bl') /\
+    ppot 0 Rplus Rmult ry_dp [0%nat; 1%nat] e' =
+      ppot 0 Rplus Rmult ry_dp [0%nat; 1%nat] ry_env +
+      fold_right Rplus 0 (map (fun i => Derive (fun t => nth i (val_at (real_eval ry_ops0 ry_env ry_dp t) (14, 0)%nat) 0) 0) (seq 0 4)).
+Proof.
+  exact (conj ry_lengths (conj ry_smooth (conj ry_wf (conj ry_shape_ok (conj ry_consistent' (conj ry_rsized'
+           (conj ry_gclean (conj ry_psz (conj ry_gen_eq (conj ry_run ry_applied)))))))))).
+Qed.
